@@ -103,6 +103,15 @@ func init() {
 			if c.Tape.Choose(simrt.StGen, 4, 0) == 1 {
 				// history: complete run, then run again
 				defaultPaths := c.Tape.Choose(simrt.StGen, 3, 0) == 1
+				// (default names are built from base names: two sources that share base
+				// names would make two tasks claim one output path - not a well-formed workflow)
+				seenBase := map[string]bool{}
+				for p := range w.Sources {
+					if seenBase[baseName(p)] {
+						defaultPaths = false
+					}
+					seenBase[baseName(p)] = true
+				}
 				if defaultPaths {
 					// scipipe's default output names (no SetOut): the second run must
 					// find the same names again. The reference does not predict them, so
